@@ -462,8 +462,14 @@ func (m *Manager) validatedPool(hashStr string, height uint64) *syncPool {
 	p := m.getOrCreatePool(hashStr, height)
 	if p.isValidatedDataHash.CompareAndSwap(false, true) {
 		log.Debugw("pool marked validated", "datahash", hashStr)
-		// if pool is proven to be valid, add all collected peers to discovered nodes
-		m.nodes.add(p.peers()...)
+		// if pool is proven to be valid, add all collected peers to discovered nodes,
+		// except for those that got blacklisted since they were collected
+		for _, peerID := range p.peers() {
+			if m.isBlacklistedPeer(peerID) {
+				continue
+			}
+			m.nodes.add(peerID)
+		}
 	}
 	return p
 }
